@@ -39,6 +39,9 @@ CONSTANTS
     SchedArgs,    \* set of explicit scheduler step arguments (-1 = none given)
     SaveArgs,     \* subset of BOOLEAN: include_factors values a Save may use
     LoadArgs,     \* subset of BOOLEAN: compute_inverses values a Load may use
+    IntTable,     \* [name -> sequence of values]: interval functions given by
+                  \* their values at steps 0, 1, 2, ... (the last value
+                  \* continues); used for traces of arbitrary drivers
     Strict,       \* BOOLEAN: iteration discipline of distributed training --
                   \* passes only when no gradients are pending, everything
                   \* else (save, load, memory query, scheduler, reset) only at
@@ -53,6 +56,8 @@ IntervalFn(name, s) ==
     CASE name = "int_1_2" -> IF s < 2 THEN 1 ELSE 2
       [] name = "int_2_1" -> IF s < 2 THEN 2 ELSE 1
       [] name = "int_1_3" -> IF s < 1 THEN 1 ELSE 3
+      [] OTHER -> LET tb == IntTable[name]
+                  IN tb[IF s + 1 <= Len(tb) THEN s + 1 ELSE Len(tb)]
 \* multiplicative factors as rationals <<num, den>> (dyadic: exact in floats)
 FactorFn(name, s) ==
     CASE name = "dbl" -> <<2, 1>>
@@ -216,9 +221,11 @@ StepFails ==
 Nu == IF FloatKind["kl_clip"] = "none" THEN [on |-> FALSE]
       ELSE [on |-> TRUE, kl |-> HPV("kl_clip"), lr |-> HPV("lr")]
 
-StepOK ==
+\* StepBody / StepRaisesBody: step() itself; the generator (StepOK /
+\* StepRaises) adds the usage assumption that gradients exist, which a trace
+\* of a real driver need not state (spec/KfacTrace.tla)
+StepBody ==
     /\ Live /\ "Step" \in Alphabet
-    /\ raw # <<>>                       \* usage assumption: gradients exist
     /\ ~StepFails
     /\ aFac' = aF1 /\ gFac' = gF1
     /\ aAcc' = IF FactorStep THEN <<>> ELSE aAcc
@@ -232,16 +239,17 @@ StepOK ==
            [grad |-> [inv |-> inv1, dampUse |-> HPV("damping"), nu |-> Nu,
                       raw |-> raw],
             refresh |-> Refresh, factorStep |-> steps % FVal = 0])
+StepOK == raw # <<>> /\ StepBody       \* usage assumption: gradients exist
 
-StepRaises ==
+StepRaisesBody ==
     /\ Live /\ "Step" \in Alphabet
-    /\ raw # <<>>
     /\ StepFails
     /\ raised' = TRUE
     /\ UNCHANGED <<steps, fv, iv, fl, mini, aAcc, gAcc, aFac, gFac, inv, raw,
                    pass, ckpt>>
     /\ h' = Append(h, [act |-> "step", arg |-> 0, x |-> [raises |-> TRUE],
                        obs |-> Obs(steps, fv, iv, fl, aFac, gFac)])
+StepRaises == raw # <<>> /\ StepRaisesBody
 
 (* ---- LambdaParamScheduler.step(arg) ------------------------------------ *)
 Scaled(spec, p, a) ==
